@@ -158,7 +158,13 @@ def jobs(tier):
         J.append(L0('print_format_num', ['C03', 'C07', 'C08', 'C19'], defines=['MAX_CAP=64', 'FMT_STR="%s"' % f], cbmc_flags=['--unwind', '14', '--unwinding-assertions'], jid='L0.print_format_num.fmt%d' % k))
     for fn in ('format_int_decimal', 'format_uint_decimal', 'format_num_hexadecimal'):
         J.append(L0(fn, ['C03', 'C07'], defines=['MAX_CAP=64', 'PF_LIGHT'], replace=['print_format_num'], cbmc_flags=['--unwind', '14', '--unwinding-assertions', '--object-bits', '10']))
-    # (loop-contract proofs of format_buffer_hexadecimal / format_buffer_string ran out of memory in CBMC 6.11: see DESIGN.md; bounded stand-ins below)
+    J.append(L0('print_string_to_buf', ['C03', 'C19'], defines=['MAX_CAP=64'], replace=['print_nstring_to_buf'], cbmc_flags=['--unwind', '12', '--unwinding-assertions']))
+    # buffer formatters under loop contracts: one job per machine (and per layout for the event machine), so that the conditional frames fold
+    for fn, repl in (('format_buffer_hexadecimal', ['print_format_num']), ('format_buffer_string', ['print_string_to_buf', 'print_nstring_to_buf'])):
+        for tag, extra in (('at', ['FIX_FSM=0']), ('ev_shared', ['FIX_FSM=1', 'FIX_SHARED=1']), ('ev_separate', ['FIX_FSM=1', 'FIX_SHARED=0'])):
+            j = L0(fn, ['C03', 'C07', 'C08'], loop=True, defines=['MAX_CAP=256', 'MAX_DS=64', 'PF_LIGHT'] + extra, replace=repl, cbmc_flags=['--unwind', '14', '--unwinding-assertions', '--object-bits', '10'], jid='L0.%s.%s' % (fn, tag))
+            j['shape'] = 'capacity 6..256 symbolic, data_size 1..64 symbolic, machine/layout fixed per job'
+            J.append(j)
     for name, t, numeric in (('int', 'CAT_VAR_INT_DEC', True), ('uint', 'CAT_VAR_UINT_DEC', True), ('hex', 'CAT_VAR_NUM_HEX', True), ('bufhex', 'CAT_VAR_BUF_HEX', False), ('string', 'CAT_VAR_BUF_STRING', False)):
         for wo in (False, True):
             ds = 4
